@@ -26,7 +26,7 @@ LEVEL_TEXT = ('Every labelled graph on <=4 (quick) / <=5 (thorough, plus all 156
 LEVEL_NOTE = ('Small-scope hypothesis beyond 5-6 attributes; set-iteration order is covered for 4 hash seeds only; the int '
               '(randomised) mode is run with a seeded numpy generator but every order it can produce is also enumerated explicitly.')
 ASSUMPTIONS = ['networkx is trusted only inside the code under test; the oracle uses its own union-find / set logic',
-               'three size patterns (generic; first attribute of size 1; last attribute of size 1) because sizes steer the greedy order and the tie-breaking of the spanning tree']
+               'four size patterns (generic; first attribute of size 1; last attribute of size 1; attribute sizes in the thousands) because sizes steer the greedy order and the tie-breaking of the spanning tree']
 
 
 def hashseeds(tier):
@@ -228,8 +228,10 @@ def run_job(job):
         for pres in press:
             if pres != 'edges' and not edges and pres != 'singletons' and pres != 'nested':
                 continue
-            for si, sizes_name in enumerate(['main', 'one', 'last1']):
+            for si, sizes_name in enumerate(['main', 'one', 'last1', 'huge']):
                 if sizes_name != 'main' and (pres not in ('edges', 'maximal') or k >= 6):
+                    continue
+                if sizes_name == 'huge' and (k < 3 or pres != 'maximal'):
                     continue
                 for order in orders_for(attrs, job['orders']):
                     run_case(acc, k, edges, pres, sizes_name, order, seed)
